@@ -8,12 +8,14 @@
        rtosc_match (render p) addr ty = true  <->  matches_spec p addr ty.
    It is FALSE of the faithful model (C05_path_refuted, C05_enum_refuted: the
    code never backtracks).  Proved instead: the "only if" half in full
-   (C05_no_spurious, C05_index_bound, C05_callback_index_bound,
+   (C05_no_spurious, C05_index_bound, C05_callback_index_bound - for EVERY
+   NUL- and ':'-free address, no bound on its digits -,
    C05_match_sound, C05_types_sound), the "if" half under the two named side
    conditions alts_prefix_free / enum_delimited (C05_path_partial,
    C05_match_partial) and for the types in full (C05_types_complete). *)
 From Coq Require Import List ZArith.
-From RtoscV Require Import Match.PatSpec Match.MatchModel Match.MatchProofs.
+From RtoscV Require Import Match.PatSpec Match.MatchModel Match.MatchProofs Match.MatchRegress
+     Match.StarProofs.
 Import ListNotations.
 Local Open Scope Z_scope.
 
@@ -114,3 +116,50 @@ Theorem C05_path_nonvacuous :
   rtosc_match (render pat_doc) [102; 111; 111; 49; 54; 47; 98; 97; 114] [102] = Some (false, None) /\
   rtosc_match (render pat_doc) [102; 111; 111; 49; 53; 47; 98; 97; 114] [115] = Some (false, Some []).
 Proof. exact path_nonvacuous. Qed.
+
+(* ---- indices of more than 9 digits ---------------------------------------- *)
+(* The theorems above carry no bound on the digits of the address any more:
+   the model follows the repaired rtosc_match_number (saturating decimal
+   reader).  The pinned function (atoi into an unsigned) needed the side
+   condition digit_runs_ok; without it: a#3 matched a4294967296. *)
+Theorem C05_long_index_refuted : exists p addr,
+  wf_pat p /\ addr_ok addr /\ ~ digit_runs_ok addr /\
+  match_path_old (render p) addr = MRet [] [] /\ ~ path_spec p addr [].
+Proof. exact long_index_refuted. Qed.
+
+Theorem C05_long_index_repaired : match_path (render pat_a3) addr_2p32 = MNull.
+Proof. exact long_index_repaired. Qed.
+
+(* ---- '*' (outside the documented form) -------------------------------------- *)
+(* pattern = segments '*' tail; Spec: '*' stands for any text without '/'.
+   No side condition: a match spells the segments followed by '/'-free text *)
+Theorem C05_star_sound : forall pre p addr r rest,
+  star_wf pre p -> addr_ok addr ->
+  match_path (render_star pre p) addr = MRet r rest ->
+  r = render_types (types p) /\ star_spec pre p addr rest.
+Proof. exact star_sound. Qed.
+
+(* when '/' or ':types' follows the '*' every such address is matched (side
+   conditions of C05_path_partial; the '*' text does not begin with a digit) *)
+Theorem C05_star_partial : forall pre p x y rest,
+  star_wf pre p -> enum_delimited pre -> (forall a, In (Alt a) pre -> prefix_free a) ->
+  (subtree p = true \/ types p <> None) ->
+  spells pre x -> ~ In 47 y -> starts_with_digit (y ++ [47]) = false ->
+  let addr := if subtree p then x ++ y ++ 47 :: rest else x ++ y in
+  addr_ok addr -> (subtree p = false -> rest = []) ->
+  match_path (render_star pre p) addr = MRet (render_types (types p)) rest.
+Proof. exact star_complete. Qed.
+
+(* a '*' at the very end of the pattern stands for the empty text only: a*
+   does not match ab, although a*: matches ab and a*/ matches ab/ *)
+Theorem C05_star_at_end_refuted :
+  star_wf [Lit [97]] (pat_a_star false None) /\
+  star_spec [Lit [97]] (pat_a_star false None) [97; 98] [] /\
+  match_path (render_star [Lit [97]] (pat_a_star false None)) [97; 98] = MNull /\
+  match_path (render_star [Lit [97]] (pat_a_star false (Some [[]]))) [97; 98] = MRet [58] [] /\
+  match_path (render_star [Lit [97]] (pat_a_star true None)) [97; 98; 47] = MRet [] [].
+Proof. exact star_at_end_refuted. Qed.
+
+(* text between '*' and the next '/' or ':' is skipped: a*b/ accepts ax/ *)
+Theorem C05_star_text_ignored : match_path [97; 42; 98; 47] [97; 120; 47] = MRet [] [].
+Proof. exact star_text_ignored. Qed.
